@@ -307,9 +307,9 @@ Qed.
 
 (* ---------- whole call, no antimeridian crossing ---------- *)
 
-Lemma geometry_no_crossing clamp fixdl glat glon galt gtime pts alts times states :
+Lemma geometry_no_crossing clamp fixdl fixe glat glon galt gtime pts alts times states :
   count_nonzero (@crossings RNum (map snd pts)) = O ->
-  @geometry RNum clamp fixdl glat glon galt gtime pts alts times states
+  @geometry RNum clamp fixdl fixe glat glon galt gtime pts alts times states
   = (0%Z, O, [@part_run RNum clamp glat glon galt gtime pts alts times states]).
 Proof. intros H. unfold geometry. rewrite H. reflexivity. Qed.
 
@@ -319,9 +319,9 @@ Section MetricWhole.
   Hypothesis dist_refl : forall p, dist p p = 0.
   Hypothesis dist_tri : forall p q r, dist p r <= dist p q + dist q r.
 
-  Lemma grid_integrated_no_crossing clamp fix3 fixdl fixz glat glon pts vars :
+  Lemma grid_integrated_no_crossing clamp fix3 fixdl fixe fixz glat glon pts vars :
     count_nonzero (@crossings RNum (map snd pts)) = O ->
-    @grid_integrated RNum dist clamp fix3 fixdl fixz glat glon pts vars
+    @grid_integrated RNum dist clamp fix3 fixdl fixe fixz glat glon pts vars
     = map (fun var => @part_values RNum fix3 var
                         (@attach_dists RNum dist (@part_geometry RNum clamp glat glon pts))) vars.
   Proof.
@@ -330,12 +330,12 @@ Section MetricWhole.
   Qed.
 
   (* gridded total >= trajectory total, for every integrated variable *)
-  Lemma grid_total_ge clamp fix3 fixdl fixz glat glon pts vars :
+  Lemma grid_total_ge clamp fix3 fixdl fixe fixz glat glon pts vars :
     count_nonzero (@crossings RNum (map snd pts)) = O ->
     Forall (fun var => length var = length (pairs pts) /\ Forall (fun v => 0 <= v) var) vars ->
     (fix3 = true \/ Forall (fun s => dist (fst s) (snd s) <> 0) (pairs pts)) ->
     Forall2 (fun var out => Rsum var <= Rsum out) vars
-            (@grid_integrated RNum dist clamp fix3 fixdl fixz glat glon pts vars).
+            (@grid_integrated RNum dist clamp fix3 fixdl fixe fixz glat glon pts vars).
   Proof.
     intros H Hv Hz. rewrite grid_integrated_no_crossing by exact H.
     induction vars as [|var vars IH]; [constructor|].
@@ -345,12 +345,12 @@ Section MetricWhole.
   Qed.
 
   (* and it is exact when lengths are additive along every chain *)
-  Lemma grid_total_exact clamp fix3 fixdl fixz glat glon pts var :
+  Lemma grid_total_exact clamp fix3 fixdl fixe fixz glat glon pts var :
     count_nonzero (@crossings RNum (map snd pts)) = O ->
     length var = length (pairs pts) ->
     Forall (fun x => fst x <> 0 /\ Rsum (snd x) = fst x)
            (@attach_dists RNum dist (@part_geometry RNum clamp glat glon pts)) ->
-    forall out, @grid_integrated RNum dist clamp fix3 fixdl fixz glat glon pts [var] = [out] -> Rsum out = Rsum var.
+    forall out, @grid_integrated RNum dist clamp fix3 fixdl fixe fixz glat glon pts [var] = [out] -> Rsum out = Rsum var.
   Proof.
     intros H Hl Hadd out E. rewrite grid_integrated_no_crossing in E by exact H.
     cbn [map] in E. injection E as <-.
@@ -399,16 +399,16 @@ Proof.
   replace (/2 - /2) with 0 by lra. rewrite Rabs_R0. replace (0 + 0) with 0 by lra. reflexivity.
 Qed.
 
-Lemma zero_length_dropped_as_coded clamp fixdl fixz :
-  @grid_integrated RNum f3_dist clamp false fixdl fixz [0; 1] [0; 1] [(/2, /2); (/2, /2)] [[5]] = [[0]].
+Lemma zero_length_dropped_as_coded clamp fixdl fixe fixz :
+  @grid_integrated RNum f3_dist clamp false fixdl fixe fixz [0; 1] [0; 1] [(/2, /2); (/2, /2)] [[5]] = [[0]].
 Proof.
   rewrite grid_integrated_no_crossing by exact f3_no_crossing. cbn [map]. rewrite f3_witness_dists.
   unfold part_values. cbn [map2 fst snd concat app]. unfold seg_values, piece_value. cbn [map length].
   rewrite frac_zero_coded. cbn [mul RNum]. replace (5 * 0) with 0 by lra. reflexivity.
 Qed.
 
-Lemma zero_length_kept_when_fixed clamp fixdl fixz :
-  @grid_integrated RNum f3_dist clamp true fixdl fixz [0; 1] [0; 1] [(/2, /2); (/2, /2)] [[5]] = [[5]].
+Lemma zero_length_kept_when_fixed clamp fixdl fixe fixz :
+  @grid_integrated RNum f3_dist clamp true fixdl fixe fixz [0; 1] [0; 1] [(/2, /2); (/2, /2)] [[5]] = [[5]].
 Proof.
   rewrite grid_integrated_no_crossing by exact f3_no_crossing. cbn [map]. rewrite f3_witness_dists.
   unfold part_values. cbn [map2 fst snd concat app]. unfold seg_values, piece_value. cbn [map length].
